@@ -2,6 +2,7 @@ import I2N.Lemmas.Trav
 import I2N.Lemmas.TravProgress
 import I2N.Lemmas.TravTerm
 import I2N.Lemmas.TravGlobal
+import I2N.Lemmas.TravGlobalN
 import I2N.Model.TravMon
 /-!
 # C02 — Traversal terminates and every selected test gets a definite result  (partial by design)
@@ -781,5 +782,85 @@ theorem unmatched_copy_reruns :
     (fun s : State => (pcWaitOf (s.wd 0).pc, (s.nd 2).results.length))
       (I2N.Trav.Global.runSteps gMis (initState gMis 3 []) (List.replicate 12 (⟨some "PASS", 1⟩, 144))) = (some (2, 0), 10) := by
   decide +kernel
+
+/-! ## Progress ACROSS suspensions: any number of workers (`Lemmas/TravGlobalN.lean`)
+
+The scheduler view of a run of a pre-parsed graph with ANY number of workers: a list of steps `(worker, outcome of the test
+it awaited, fuel)` (`GlobalN.StepN`), any interleaving; the state evolves by `resume g s w out fuel` (`GlobalN.runStepsN`)
+from `initState g ncls store`.  A step is *productive* (`GlobalN.productive`, a function of the stepping worker's program
+counter before and after the step) unless it is a step of a worker whose traversal is over, or a worker in the loop / waking
+up from a back-off sleep goes to sleep (again) at an occupied node.  `GlobalN.Patient`: no worker steps after it has waited at
+occupied nodes for longer than `timeout · max(max_tries, 1)` of such a node — so no `max_concurrent_tries` is ever bumped. -/
+
+open I2N.Trav.Term I2N.Trav.Global I2N.Trav.GlobalN in
+/-- **nonbounce_steps_bounded** (`_partial`: class hypotheses and patience).  Pre-parsed acyclic graph, ANY number of
+workers, any interleaving of steps of real workers with `fuel ≥ bound g`, any outcomes (any status, results that never
+arrive, any duration); `noRootsB`, `classesOKB` as in `single_worker_terminates_partial`; the run is `Patient`.  Then the
+number of productive steps of the WHOLE run — every step of a worker that is inside a test (ticks of the result wait
+included), and every step of a worker in the loop or waking up from a back-off sleep that does not end in a back-off sleep
+again — is at most `24 · Σ_n max(max_tries n, 1) + |workers|`, a function of the static graph.  So the ONLY way a run can be
+long is workers sleeping at occupied nodes (`unproductive_step_is_backoff`: every other step is a no-op of a finished
+worker or a `loop/bounce → bounce` step).
+
+Why: `cntN = 24·#results + Σ_v q(pc v)` (`q` = the wait counter inside a test, 12 in the loop / back-off sleep, 13 when over)
+never falls and grows with every productive step (`GlobalN.step_cntN`; a block with `fuel ≥ bound g` ends by itself, so a
+wake-up that does not end asleep ends inside a fresh test, done or dead); `#results ≤ Σ_n max(max_tries n, 1)` by the C03
+budgets for any number of workers (`GlobalN.total_le_resultBoundN`).
+
+MISSING for the full statement: object roots and the class hypotheses (as for one worker); `Patient` — without it the
+thresholds grow with every over-waited back-off and the C03 budget `max(max_tries, classLimit)` grows with them, so no bound
+in terms of the static graph alone follows from the invariants at hand (whether the model really produces more results then
+is not decided here: the bump involves `Float` comparisons, which `decide` cannot evaluate). -/
+theorem nonbounce_steps_bounded_partial (g : Graph) (hr : rankedB g = true) (hsym : edgeSymB g = true)
+    (hflat : noFlatB g = true) (hwf : graphWF g = true) (ncls : Nat)
+    (hcls : ∀ n, n < g.nodes.length → (g.node n).cls < ncls) (hroots : noRootsB g = true) (hcl : classesOKB g = true)
+    (store : List (String × List (String × String))) (steps : List StepN)
+    (hreal : ∀ x ∈ steps, x.1 < g.workers.length) (hfuel : ∀ x ∈ steps, bound g ≤ x.2.2)
+    (hpat : Patient g (initState g ncls store) steps) :
+    productiveSteps g (initState g ncls store) steps ≤ 24 * resultBound g + g.workers.length :=
+  productive_le ⟨hr, hsym, hflat, hwf, hcls⟩ hroots hcl store steps hreal hfuel hpat
+
+open I2N.Trav.GlobalN I2N.Trav.Global in
+/-- the steps `nonbounce_steps_bounded_partial` does not count (any graph, any state): the worker's traversal was over and
+the step changed nothing, or the worker was in the loop / in a back-off sleep and ends the step in a back-off sleep -/
+theorem unproductive_step_is_backoff (g : Graph) (s : State) (w : Nat) (out : Outcome) (fuel : Nat)
+    (h : productive (s.wd w).pc ((resume g s w out fuel).1.wd w).pc = false) :
+    (((s.wd w).pc = .done ∨ (s.wd w).pc = .failed) ∧ (resume g s w out fuel).1 = s) ∨
+    (((s.wd w).pc = .loop ∨ (s.wd w).pc = .bounce) ∧ ((resume g s w out fuel).1.wd w).pc = .bounce) := by
+  rcases unproductive_step g s w out fuel h with ⟨h1, h2⟩ | h1
+  · left
+    refine ⟨?_, h2⟩
+    cases hpc : (s.wd w).pc <;> rw [hpc] at h1 <;> first | (cases h1; done) | exact Or.inl rfl | exact Or.inr rfl
+  · exact Or.inr h1
+
+/-- two workers of one swarm, one stateless class with a copy each: the second worker finds the class occupied -/
+def gDuo : Graph :=
+  { workers := [{ id := "net1", swarm := "localhost" }, { id := "net2", swarm := "localhost" }],
+    nodes := [{ cls := 0, owner := none, name := "root", pfx := "0", sharedRoot := true,
+                cleanup := [(1, ["vm1"]), (2, ["vm1"])] },
+              { cls := 1, owner := some 0, name := "leaf.net1", pfx := "1", setup := [(0, ["vm1"])] },
+              { cls := 1, owner := some 1, name := "leaf.net2", pfx := "2", setup := [(0, ["vm1"])] }],
+    root := 0 }
+
+/-- worker 0 starts its leaf, worker 1 bounces off the occupied class (an unproductive step), worker 0 finishes -/
+def runOfGDuo : List I2N.Trav.GlobalN.StepN := [(0, ⟨none, 0⟩, 82), (1, ⟨none, 0⟩, 82), (0, ⟨some "PASS", 1⟩, 82)]
+
+def pcIsBounce : Pc → Bool
+  | .bounce => true
+  | _ => false
+
+example : I2N.Trav.Term.rankedB gDuo = true ∧ edgeSymB gDuo = true ∧ I2N.Trav.Term.noFlatB gDuo = true ∧
+    graphWF gDuo = true ∧ I2N.Trav.Global.noRootsB gDuo = true ∧ I2N.Trav.Global.classesOKB gDuo = true ∧
+    I2N.Trav.Term.bound gDuo = 82 ∧ I2N.Trav.Global.resultBound gDuo = 3 := by decide +kernel
+/-- the run has two productive steps and one back-off step; afterwards worker 0 is done and worker 1 sleeps -/
+example : I2N.Trav.GlobalN.productiveSteps gDuo (initState gDuo 2 []) runOfGDuo = 2 ∧
+    pcIsDone ((I2N.Trav.GlobalN.runStepsN gDuo (initState gDuo 2 []) runOfGDuo).wd 0).pc = true ∧
+    pcIsBounce ((I2N.Trav.GlobalN.runStepsN gDuo (initState gDuo 2 []) runOfGDuo).wd 1).pc = true := by decide +kernel
+/-- the run is patient: no worker that steps has bounced before -/
+theorem runOfGDuo_patient : I2N.Trav.GlobalN.Patient gDuo (initState gDuo 2 []) runOfGDuo :=
+  ⟨not_overWaited_of_nil (by decide +kernel), not_overWaited_of_nil (by decide +kernel),
+    not_overWaited_of_nil (by decide +kernel), trivial⟩
+example := nonbounce_steps_bounded_partial gDuo (by decide) (by decide) (by decide) (by decide) 2 (by decide) (by decide)
+  (by decide +kernel) [] runOfGDuo (by decide) (by decide) runOfGDuo_patient
 
 end I2N.Props.C02
